@@ -323,14 +323,20 @@ func (l *lexer) tryLexOperator() bool {
 		if strings.HasPrefix(l.input[l.pos+1:], "}") {
 			return false
 		}
-	} else if isAlpha(op) {
-		// If operator is alphabetic (such as "in" or "is"),
+	} else if isAlpha(op[len(op)-1:]) {
+		// If operator ends in a word (such as "in", "is" or "not in"),
 		// we avoid matching "include" or functions like "is_currently_on"
 		// For such operators to be valid, they must not be followed by a character
 		// that continues a name; any whitespace, a parenthesis or a quote may follow.
-		lenOp := len(op)
-		if (l.pos+lenOp+1) <= len(l.input) && isName(l.input[l.pos+lenOp:l.pos+lenOp+1]) {
-			return false
+		if l.continuesName(len(op)) {
+			// "not invalid" is "not" applied to a name, "is nothing" the test "nothing".
+			first := strings.Fields(op)[0]
+			_, unary := unaryOperators[first]
+			_, binary := binaryOperators[first]
+			if first == op || !(unary || binary) || l.continuesName(len(first)) {
+				return false
+			}
+			op = first
 		}
 	} else if op == delimTrimWhitespace {
 		rest := l.input[l.pos+1:]
@@ -342,6 +348,11 @@ func (l *lexer) tryLexOperator() bool {
 	l.emit(tokenOperator)
 
 	return true
+}
+
+// continuesName reports whether the character n bytes ahead could be part of a name.
+func (l *lexer) continuesName(n int) bool {
+	return (l.pos+n+1) <= len(l.input) && isName(l.input[l.pos+n:l.pos+n+1])
 }
 
 // Check if a string only contains alphabetic characters
